@@ -451,8 +451,15 @@ def gen_obs(ctx):
             pred = dict(pred, shape=g_shape(r))        # (a copy: the dict is also part of the case / of an earlier operation)
             ops.append(["p_shape", pred["shape"]])
         elif k == "p_traj":
-            pred = dict(pred, traj=g_traj(r, pred["traj"]["t0"] + r.choice([0, 0, 1])))
-            ops.append(["p_traj", pred["traj"]])
+            if r.random() < 0.3:
+                # the SAME trajectory object, moved in place and assigned back through the setter: the new primary data is the shifted copy
+                dx, dy = r.choice([4.0, -8.0, 12.5]), r.choice([0.0, 2.0, -6.0])
+                old = pred["traj"]
+                pred = dict(pred, traj={"t0": old["t0"], "states": [[st[0] + dx, st[1] + dy] + list(st[2:]) for st in old["states"]]})
+                ops.append(["p_traj", pred["traj"], [dx, dy]])
+            else:
+                pred = dict(pred, traj=g_traj(r, pred["traj"]["t0"] + r.choice([0, 0, 1])))
+                ops.append(["p_traj", pred["traj"]])
         elif k == "p_wb":
             ops.append(["p_wb", r.choice([None, [2.5], [2.5, 3.0]])])
         elif k == "p_asg":
@@ -712,7 +719,13 @@ def run_obs(ctx, case, model=True):
                 m_ops.append(["p_shape", v])
             elif k == "p_traj":
                 def f():
-                    p.trajectory = b_traj(op[1])
+                    if len(op) > 2:
+                        held = p.trajectory
+                        held.translate_rotate(np.array(op[2], dtype=float), 0.0)
+                        p.trajectory = held          # the same object through the public setter
+                        ctx.tag("mut/trajectory-same-object-reassigned")
+                    else:
+                        p.trajectory = b_traj(op[1])
                 r = call(f)
                 rows.mutate("occupancySet", "predSetTrajectory")
                 m_ops.append(["p_traj", [v, op[1]["t0"], len(op[1]["states"])]])
